@@ -3,13 +3,13 @@ CONSTANTS
   Vals = {0, 16, 48}
   Ramps = {0, 16, 32}
   Jitters = {0}
-  Shapes = {"ramp", "speed"}
+  Shapes = {"speed"}
   StartHv = {16}
-  StartTarget = {16, 0}
+  StartTarget = {16}
   Depth = 7
   MaxTargets = 1
   MaxStops = 0
-  MaxRamps = 2
+  MaxRamps = 1
   MaxReads = 1
   MaxX = 0
 CONSTRAINT Bound
